@@ -62,6 +62,11 @@ def corpus_specs(ctx):
                       {"opid": "getB", "method": "get", "path": "/b", "params": [], "body": None, "responses": [["200", [["application/json", "ref:" + other]]]]}])
         d["components"]["schemas"] = sh
         out.append(("gen_inline_items_" + tag, d))
+    # F18-3: a `pattern` on a request-side member (query parameter) and on a schema member used in a request body
+    rx = ops_spec([{"opid": "op0", "method": "post", "path": "/a", "params": [{"name": "sort", "in": "query", "level": "op", "type": "string"}], "body": {"content": [["application/json", "ref:Pet"]], "required": True}, "responses": [["200", [["application/json", "ref:Pet"]]]]}])
+    rx["paths"]["/a"]["post"]["parameters"][0]["schema"]["pattern"] = "^[a-z]+$"
+    rx["components"]["schemas"]["Pet"]["properties"]["name"]["pattern"] = "^x+$"
+    out.append(("gen_regex_param", rx))
     # single-feature documents and random documents of the feature grammar (the corpus of C01)
     from checks.c01 import FEATURES
     names = sorted(FEATURES) if not ctx.quick else r.sample(sorted(FEATURES), 8)
